@@ -53,6 +53,8 @@ func NewServer(parse ParseFn, options ...OptionFn) (*Server, error) {
 // Server contains options for listening to an address.
 type Server struct {
 	closing         atomic.Bool
+	closeOnce       sync.Once
+	admission       sync.RWMutex
 	wg              sync.WaitGroup
 	logger          *slog.Logger
 	types           []func(*pgtype.Map)
@@ -183,18 +185,46 @@ func (srv *Server) serve(ctx context.Context, conn net.Conn) error {
 	return session.consumeCommands(ctx, conn, reader, writer)
 }
 
-// Close gracefully closes the underlaying Postgres server.
+// Close gracefully closes the underlaying Postgres server. The listener is
+// closed, commands which have been started are awaited and no new commands
+// are started once Close has returned. Close may be called multiple times and
+// from multiple goroutines, every call returns once the server has been closed.
 func (srv *Server) Close() error {
 	verifPoint("close:enter")
-	if srv.closing.Load() {
-		return nil
-	}
+	srv.closeOnce.Do(func() {
+		verifPoint("close:checked")
 
-	verifPoint("close:checked")
-	srv.closing.Store(true)
-	close(srv.closer)
-	verifPoint("close:signalled")
+		// NOTE: the admission lock is held by every connection while it decides
+		// whether to start a command (see admit). Once the lock has been acquired
+		// here every started command is registered inside the wait group and no
+		// further command is able to start.
+		srv.admission.Lock()
+		srv.closing.Store(true)
+		srv.admission.Unlock()
+
+		close(srv.closer)
+		verifPoint("close:signalled")
+	})
+
 	srv.wg.Wait()
 	verifPoint("close:waited")
 	return nil
+}
+
+// admit reports whether a newly received command is allowed to start. An
+// admitted command is registered inside the wait group awaited by Close and
+// has to be released by calling srv.wg.Done.
+func (srv *Server) admit() bool {
+	srv.admission.RLock()
+	defer srv.admission.RUnlock()
+
+	if srv.closing.Load() {
+		return false
+	}
+
+	verifPoint("cmd:admitted")
+	// NOTE: we increase the wait group by one in order to make sure that idle
+	// connections are not blocking a close.
+	srv.wg.Add(1)
+	return true
 }
